@@ -190,7 +190,8 @@ func recordStorage(seed int64, traces, n int, out string) {
 	for t := 0; t < traces; t++ {
 		addr := make([]byte, []int{2, 20, 32, 32, 32}[rng.Intn(5)])
 		rng.Read(addr)
-		keys := map[string][]byte{"p": {1}, "pq": {1, 2}, "q": {2}, "r": make([]byte, 1+rng.Intn(40))}
+		// "r": a random key of 3..40 bytes (longer than the fixed keys, so the four keys are always distinct)
+		keys := map[string][]byte{"p": {1}, "pq": {1, 2}, "q": {2}, "r": make([]byte, 3+rng.Intn(38))}
 		rng.Read(keys["r"])
 		kj := M{}
 		for k, v := range keys {
